@@ -244,8 +244,10 @@ def run_item(item, tier):
         # ascending and descending order of larger sets
         if k <= (3 if n <= 4 else 2):
             tsets = list(itertools.permutations(elems, k))
-        else:
+        elif n <= 4:
             tsets = [c for comb in itertools.combinations(elems, k) for c in (comb, comb[::-1])]
+        else:
+            tsets = list(itertools.combinations(elems, k))
         for targets in tsets:
             for step in range(1, n + 2):
                 case = dict(item, targets=list(targets), step=step)
@@ -319,7 +321,7 @@ def coverage(agg, tier):
         "evaluations": c.get("runs", 0),
         "distinct_nontrivial": len(agg["outcomes"]),
         "rule": "all DAGs on n<=%d topologically numbered elements x 2 encodings (one cells v(i) / one cells per "
-                "element) + input/uncached variants x all non-empty target sets, listed in every order (up to 3 targets, 2 when n = 5; ascending and descending beyond) x all step sizes 1..n+1; "
+                "element) + input/uncached variants x all non-empty target sets, listed in every order (up to 3 targets, beyond that ascending and descending; n = 5: all orders of 2 targets, ascending beyond) x all step sizes 1..n+1; "
                 "distinct_nontrivial = number of distinct (action plan, final held set) outcomes observed; "
                 "runs in which at least one formula executed: %d" % (4 if tier == "quick" else 5, c.get("nontrivial", 0)),
         "exhaustive": True,
